@@ -128,10 +128,17 @@ def run(ctx):
                     arg = slice(a, b)
                     sel = 'SSlice %s %s' % ('None' if a is None else '(Some %s)' % term(a), 'None' if b is None else '(Some %s)' % term(b))
                 reloc = bool(rng.integers(2))
-                p = dict(to_prune=str(arg), relocate_connectors=reloc)
+                # reroot_soma=True with the soma away from the root: indices, pruning and connector relocation all refer to the REROOTED tree
+                soma = None
+                nonroot_ = [i for i, q in zip(ids, f['parents']) if q >= 0]
+                if sum(1 for q in f['parents'] if q < 0) == 1 and nonroot_ and rng.random() < 0.35:
+                    soma = int(nonroot_[int(rng.integers(len(nonroot_)))])
+                    x.soma = soma
+                    T = '(run [OReroot %s] %s)' % (term(soma), T)
+                p = dict(to_prune=str(arg), relocate_connectors=reloc, reroot_soma=soma is not None, soma=soma)
                 desc.update(params=p)
-                st_si, si = guarded(lambda: {int(i): int(s) for i, s in zip(*[navis.strahler_index(x.copy()).nodes[c].values for c in ('node_id', 'strahler_index')])})
-                st, res = guarded(navis.prune_by_strahler, x, to_prune=arg, reroot_soma=False, force_strahler_update=True,
+                st_si, si = guarded(lambda: {int(i): int(s) for i, s in zip(*[navis.strahler_index(x.copy() if soma is None else navis.reroot_skeleton(x, soma, inplace=False)).nodes[c].values for c in ('node_id', 'strahler_index')])})
+                st, res = guarded(navis.prune_by_strahler, x, to_prune=arg, reroot_soma=soma is not None, force_strahler_update=True,
                                   relocate_connectors=reloc, inplace=bool(rng.integers(2)))
                 SI = '(strahler_all false [] %s)' % T
                 maxsi = '(zmaxl (map snd %s))' % SI
@@ -145,7 +152,12 @@ def run(ctx):
                 src = int(ids[int(rng.integers(len(ids)))]) if rng.random() < 0.6 else None
                 p = dict(depth=size, source=src)
                 desc.update(params=p)
-                st, res = guarded(navis.prune_at_depth, x, depth=size, source=src, inplace=bool(rng.integers(2)))
+                route = 'method' if rng.random() < 0.35 else 'function'
+                p['route'] = route
+                if route == 'method':
+                    st, res = guarded(lambda: (lambda ip: (lambda r_: x if ip else r_)(x.prune_at_depth(size, source=src, inplace=ip)))(bool(rng.integers(2))))
+                else:
+                    st, res = guarded(navis.prune_at_depth, x, depth=size, source=src, inplace=bool(rng.integers(2)))
                 src_m = src if src is not None else int(x.root[0])
                 jobs.append(dict(desc=desc, nt=nt, key=(str(f['ids']), str(f['xyz']), kind, str(p)),
                                  exprs=['out (prune_at_depth %s %s %s %s)' % (T, W, term(src_m), term(Fraction(size)))],
@@ -170,7 +182,7 @@ def run(ctx):
                                         % (T, W, lo, hi, term(inverse), W, T, W)],
                                  cmp=_cmp_longest(st, res, x, lo, hi)))
     flat = [e for j in jobs for e in j['exprs']]
-    res = coqio.eval_terms('C12', ['model.Forest', 'model.Dist', 'model.Segments', 'model.Prune', 'model.Strahler'], flat, shard=100)
+    res = coqio.eval_terms('C12', ['model.Forest', 'model.Ops', 'model.Dist', 'model.Segments', 'model.Prune', 'model.Strahler'], flat, shard=100)
     pos = 0
     for j in jobs:
         r = res[pos:pos + len(j['exprs'])]
